@@ -229,6 +229,11 @@ fn cmd_run(args: &[String]) {
     let fault_enum = pname == "C07" || flag(args, "--fault-enum");
     let mut trace_log = arg(args, "--trace-log").map(|p| std::io::BufWriter::new(std::fs::File::create(p).expect("trace log")));
     install_hook(out_dir);
+    {
+        // learn the width of the counter type from one pass-through count read
+        let probe = triomphe::Arc::new(0u8);
+        let _ = triomphe::Arc::strong_count(&probe);
+    }
     let t0 = std::time::Instant::now();
     let mut runs: u64 = 0;
     let mut scenarios: u64 = 0;
